@@ -98,7 +98,7 @@ theorem glue_congr {F F' G G' R R' : PDiag O A} (hF : F.wf = true) (hG : G.wf = 
       have ha : a < F.n := f2 a (List.mem_of_getElem? hk1)
       have hc' : c < G.n := g1 c (List.mem_of_getElem? hc)
       subst hb
-      rw [sumMap_left ha, sumMap_right]
+      rw [plusMap_left ha, plusMap_right]
       have := v1.nbij.1 a ha
       have := v2.nbij.1 c hc'
       refine EqvOn.of_rel (by rw [gluePre_n]; omega) (by rw [gluePre_n]; omega) ⟨k, ?_, ?_⟩
@@ -120,13 +120,13 @@ theorem glue_congr {F F' G G' R R' : PDiag O A} (hF : F.wf = true) (hG : G.wf = 
         have ha' : a < F.n := f2 a (List.mem_of_getElem? ha)
         have hc' : c < G.n := g1 c (List.mem_of_getElem? hc)
         refine ⟨a, F.n + c, by rw [gluePre_n]; omega, by rw [gluePre_n]; omega, ?_, ?_, ?_⟩
-        · rw [sumMap_left ha', ea]
-        · rw [sumMap_right, eb]
+        · rw [plusMap_left ha', ea]
+        · rw [plusMap_right, eb]
         · refine EqvOn.of_rel (by rw [gluePre_n]; omega) (by rw [gluePre_n]; omega) ⟨k, ha, ?_⟩
           rw [hc]; rfl
 
 /-- JUXTAPOSITION RESPECTS ISOMORPHISM -/
-theorem juxt_congr {F F' G G' : PDiag O A} (hF : F.wf = true) (h1 : F ≅ F') (h2 : G ≅ G') :
+theorem juxt_iso_congr {F F' G G' : PDiag O A} (hF : F.wf = true) (h1 : F ≅ F') (h2 : G ≅ G') :
     PDiag.juxt F G ≅ PDiag.juxt F' G' := by
   obtain ⟨π, ρ, v1⟩ := iso_iff_isoVia.1 h1
   obtain ⟨π', ρ', v2⟩ := iso_iff_isoVia.1 h2
